@@ -17,7 +17,7 @@ PROP = 'C06'
 LEAN_TARGETS = ['VivProps.C06']
 DRIVER = 'Topo'
 REQUIRED_THEOREMS = ['read_write_same_node', 'inverse_single', 'apply_single', 'apply_single_frame',
-                     'multi_two_applied_partial']
+                     'multi_two_applied_partial', 'multi_direct_and_glob_applied_partial']
 ANCHORS = [
     ('vivarium/core/store.py', ['Store._topology_ports', 'Store.outer_path', 'Store._establish_path',
                                 'Store._apply_config', 'Store.schema_topology', 'Store.get_path',
@@ -37,7 +37,7 @@ RULE = ('cases: a probe process at depth 0-3 with 1-4 ports over a designed hier
         '`{"*": path}`, under `_path`, dict sub-topology with renames, top-level "*"), "**", _output; '
         'paths use ".." (sometimes climbing higher than needed); a second process declares extra '
         'variables / glob children; ~12% malformed (omitted port, ".." above the root, variable/store '
-        'clash, undeclared port, direct-before-glob collision). Every port variable is written once with '
+        'clash, undeclared port); direct ports on glob children, listed before or after the glob port. Every port variable is written once with '
         'a unique delta, then all together. Non-trivial: ≥ 2 variables written and the topology uses '
         '".." or a dictionary. Distinct by canonical JSON of the case.')
 TRUSTED = ['CPython dict ordering (modelled)',
@@ -48,8 +48,7 @@ ASSUMPTIONS = [
     'no process nodes on the routes of topology paths; no `_divider` ports; `_output` only ever True',
     'WellFormed (VivProps/C06.lean): every port of a dictionary level without `_path` appears in the '
     'topology; a glob "*" is the only port of its level; port names are not "..", "_path", '
-    '"_multi_update"; glob ports wired by a tuple path do not share variables with ports listed before '
-    'them (candidate findings CF-A, CF-B in notes/C06.md)',
+    '"_multi_update" (CF-B in notes/C06.md: ports omitted from a level without `_path` are outside)',
 ]
 CASE_TIMEOUT = 20.0
 
@@ -182,8 +181,26 @@ def gen_case(rng, tier, force_malformed=None):
                 for v in vs:
                     set_init(G + [k, rename.get(v, v)], w.default(G + [k, rename.get(v, v)]) + 5)
                     variables.append(([name, k, v] if gform != 'top' else [k, v]))
-            if not kids:
-                pass
+            if kids and gform != 'top' and rng.random() < 0.45:
+                # a direct port on one of the glob's children (several variables → one node through
+                # a glob; the former candidate finding CF-A, repaired by 9f366a6), listed before
+                # or after the glob port
+                k = rng.choice(kids)
+                dname = f'd{i}'
+                if rng.random() < 0.3:
+                    v = rng.choice(vs)
+                    dport = (dname, leaf_schema(7), rel_path(rng, loc, G + [k, rename.get(v, v)]))
+                    dvars = [[dname]]
+                else:
+                    dvs = rng.sample(vs, rng.randrange(1, len(vs) + 1))
+                    dport = (dname, dict_schema([[rename.get(v, v), leaf_schema(7)] for v in dvs]),
+                             rel_path(rng, loc, G + [k]))
+                    dvars = [[dname, rename.get(v, v)] for v in dvs]
+                if rng.random() < 0.5:
+                    ports.insert(len(ports) - 1, dport)
+                else:
+                    ports.append(dport)
+                variables += dvars
     # unique initial values for most variable nodes (defaults for the rest)
     for node, m in list(w.marker.items()):
         if rng.random() < 0.7:
@@ -206,7 +223,7 @@ def gen_case(rng, tier, force_malformed=None):
     case = {'kind': 'rw', 'procs': procs, 'probe': 0, 'init': enc(init), 'vars': variables,
             'outputs': outputs, 'malformed': None}
     m = force_malformed if force_malformed is not None else (
-        rng.choice(['omit', 'above', 'clash', 'undeclared', 'cfa']) if rng.random() < 0.12 else None)
+        rng.choice(['omit', 'above', 'clash', 'undeclared']) if rng.random() < 0.12 else None)
     if m:
         case = make_malformed(rng, case, m, w)
     return case
@@ -236,17 +253,6 @@ def make_malformed(rng, case, m, w):
         tes.append(['pd', rel_path(rng, probe['at'], S)])
     elif m == 'undeclared':
         tes.append(['nope', ['A']])
-    elif m == 'cfa':
-        # CF-A: a direct port listed BEFORE a tuple-wired glob port sharing a variable
-        G = ['GG']
-        ses[:0] = [['pa', dict_schema([['x', leaf_schema(7)]])]]
-        tes[:0] = [['pa', rel_path(rng, probe['at'], G + ['k1'])]]
-        ses.append(['pg', dict_schema([['*', dict_schema([['x', leaf_schema(7)]])]])])
-        tes.append(['pg', dict_topo([['*', rel_path(rng, probe['at'], G)]])])
-        init = dec(case['init'])
-        init.setdefault('GG', {})['k1'] = {'x': 77}
-        case['init'] = enc(init)
-        case['vars'] = [['pa', 'x'], ['pg', 'k1', 'x']] + case['vars'][:5]
     else:
         return case
     case['malformed'] = m
@@ -293,6 +299,18 @@ def corpus():
               dict_topo([['*', dict_topo([['_path', ['..', 'G']], ['x', ['xx']]])]]))],
             at=['c1'], vars_=[['g', 'k1', 'x']],
             others=[('o0', dict_schema([['xx', L(7)]]), ['G', 'k1'])], init={'G': {'k1': {'xx': 3}}}),
+        # CF-A (pre-fix witness of 9f366a6): direct port listed BEFORE a path-wired glob port on the same
+        # child variable: updates 1 and 2 (then 4 and 8 together) must all arrive; and the other order
+        _mk([('a', dict_schema([['x', L(0)]]), ['S', 'c1']),
+             ('g', dict_schema([['*', dict_schema([['x', L(0)]])]]), dict_topo([['*', ['S']]]))],
+            vars_=[['a', 'x'], ['g', 'c1', 'x']], init={'S': {'c1': {'x': 0}}}),
+        _mk([('g', dict_schema([['*', dict_schema([['x', L(0)]])]]), dict_topo([['*', ['S']]])),
+             ('a', dict_schema([['x', L(0)]]), ['S', 'c1'])],
+            vars_=[['a', 'x'], ['g', 'c1', 'x']], init={'S': {'c1': {'x': 0}}}),
+        # same through a leaf port and a glob wired below a tuple path, process at depth 1
+        _mk([('a', L(0), ['..', 'S', 'c1', 'x']),
+             ('g', dict_schema([['*', dict_schema([['x', L(0)]])]]), ['..', 'S'])],
+            at=['c1'], vars_=[['a'], ['g', 'c1', 'x']], init={'S': {'c1': {'x': 5}}}),
         # CF-B (candidate finding, outside WellFormed): port omitted from the topology
         _mk([('a', dict_schema([['x', L(1)]]), ['A'])], vars_=[['a', 'x']], malformed='omit-demo'),
     ]
@@ -517,8 +535,9 @@ LEVEL_TEXT = ('Lean 4 theorems over all trees, schemas, topologies, process posi
 LEVEL_NOTE = ('Trusted: Lean kernel; axioms ⊆ {propext, Classical.choice, Quot.sound}; hand-written model '
               'validated differentially on snapshots of the real Store tree (the declaration of nodes by '
               '`_topology_ports` is exercised through the real engine, not modelled). `multi_two_applied_partial` '
-              'covers two leaf ports; the n-variable statement over arbitrary port forms is checked by the oracle '
-              '(up to 9 variables) and the correspondence, not proved. Outside WellFormed (candidate findings, '
-              'notes/C06.md): ports omitted from a topology level without `_path` (read by default, updates '
-              'dropped); a direct port listed before a tuple-wired glob port on the same variable (update lost).')
+              '(two leaf ports) and `multi_direct_and_glob_applied_partial` (direct port + path-wired glob port on '
+              'one child variable, both listing orders — the shape repaired by 9f366a6) are proved; the n-variable '
+              'statement over arbitrary port forms is checked by the oracle (up to 9 variables) and the '
+              'correspondence, not proved. Outside WellFormed (noted edge CF-B, notes/C06.md): ports omitted '
+              'from a topology level without `_path` (read by default, updates dropped).')
 TECHNIQUE = 'Lean 4 proof (induction over declared variables; walking = lexical bridge from C17) + differential model/code check'
